@@ -305,6 +305,10 @@ class C14(Machine):
     def totals(self):
         return {"enumerated_cut_sets_up_to_4_blocks": len(_ENUM)}
 
+    def explain_blake2_empty_final_orig(self, plan, v):
+        """the stream as generated (before minimisation) already has the finding's shape"""
+        return self.explain_blake2_empty_final(plan, v)
+
     def explain_blake2_empty_final(self, plan, v):
         """Known finding C14/blake2-empty-final: all data fed by non-final updates, empty final
         piece, total > 0, on a Blake2 object."""
